@@ -2,6 +2,7 @@ import GdcVerif.Driver.Util
 import GdcVerif.Model.JpegContainer
 import GdcVerif.Spec.StrictJpeg
 import GdcVerif.Spec.StrictJ2kTiles
+import GdcVerif.Model.T1Layered
 /-! Driver ops of check C16 (container level). See `go/cmd/vharness/c16.go` for the producing side. -/
 namespace Drv.JpegContainer
 open Drv JpegC
@@ -131,6 +132,28 @@ def step? : List String → Option String
     let ps := pieces.map hexToBytes
     let ok := ps.all fun p => decide (StrictJ2k.BodyOk p)
     some s!"ok {bytesToHex ps.flatten} {if ok then 1 else 0}"
+  | "c16-ht-partition" :: levels :: pk =>
+    -- packets as `res:headerhex:bodyhex`; output: the NumLevels+1 tile-part bodies
+    some <| match levels.toInt?, pk.mapM (fun (t : String) =>
+        match t.splitOn ":" with
+        | [r, h, b] => r.toInt?.map fun r => (r, hexToBytes h, hexToBytes b)
+        | _ => none) with
+    | some l, some packets =>
+      match htPartition l packets with
+      | .ok parts => "ok " ++ " ".intercalate (parts.map bytesToHex)
+      | .err => "err"
+      | .panic => "panic"
+    | _, _ => "bad-op"
+  | ["c16-layer-cuts", rates, hx] =>
+    -- real (already normalised) cumulative pass rates of one code-block and its byte string: the model normaliser must
+    -- leave them unchanged, and every rate must be a cut that is not immediately after an 0xFF byte, in ascending order
+    some <| match parseInts rates with
+    | some rs =>
+      let rs := rs.map Int.toNat
+      let data := hexToBytes hx
+      let ok := rs.all (fun r => decide (StrictJ2k.CutOk data r)) && decide (rs.Pairwise (· ≤ ·))
+      s!"ok {intsToStr ((T1.normalizeRates rs data).map Int.ofNat)} {if ok then 1 else 0}"
+    | none => "bad-op"
   | ["c16-strict", hx] =>
     some <| match StrictJpeg.parse (hexToBytes hx) with
     | some r => strictLine r
